@@ -215,6 +215,8 @@ def sim(arg):
     p = w.spawn(4700, ppid=w.mypid, comm=b"subj", start=900)
     q = w.spawn(4701, ppid=w.mypid, comm=b"sib", start=901)
     p.cpus_allowed_list = shape
+    if shape == "none":
+        p.status_extra = {"nocpuslist": True}      # (a kernel older than 2.6.24 / a reduced procfs: no Cpus_allowed_list line)
     if ncpu < max(eligible) + 1:
         # a CPU in the middle was hot-unplugged: ncpu rows in /proc/stat, numbered like the eligible CPUs
         w.online_cpu_ids = list(eligible)
@@ -487,6 +489,37 @@ def sim_oneshot(arg):
     use_world(w)
     pr = psutil.Process(4700)
     bad = []
+    if what.startswith("exc:"):
+        # a block that read the status record and was left by an exception; later the cpuset of the task moves: the
+        # all-eligible-CPUs form (and the getters) work from the record as it is THEN
+        w.ncpus = 8
+        p.cpus_allowed_list = "0-3"
+        elig = [[0, 1, 2, 3]]
+        w.eligible_cpus = lambda proc: list(elig[0]) if proc is p else list(range(8))
+        exc = {"KeyError": KeyError("x"), "AccessDenied": psutil.AccessDenied(4700), "KeyboardInterrupt": KeyboardInterrupt()}[what[4:]]
+
+        def blk():
+            with pr.oneshot():
+                pr.uids()
+                pr.num_threads()
+                pr.name()
+                raise exc
+        try:
+            blk()
+        except BaseException as e:  # noqa: BLE001
+            if e is not exc:
+                bad.append(("sim:block-left-by-exception:other-exception", repr(e)))
+        p.cpus_allowed_list = "2-5"
+        elig[0] = [2, 3, 4, 5]
+        p.uids = (7, 7, 7, 7)
+        out = outcome(pr.cpu_affinity, [])
+        if out[0] != "ok" or sorted(p.affinity or []) != [2, 3, 4, 5]:
+            bad.append(("sim:affinity:empty-list:stale-eligible-set-after-a-block-left-by-an-exception",
+                        "block left by %s, cpuset moved 0-3 -> 2-5: cpu_affinity([]) -> %r, kernel affinity %r" % (what[4:], out, sorted(p.affinity or []))))
+        got = outcome(pr.uids)
+        if got[0] != "ok" or got[1].real != 7:
+            bad.append(("sim:getter-stale-after-a-block-left-by-an-exception", "uids() -> %r, kernel says 7" % (freeze(got),)))
+        return bad
     with pr.oneshot():
         for m in ("name", "ppid", "cpu_times", "uids", "num_threads", "status", "memory_info"):
             getattr(pr, m)()
@@ -521,7 +554,9 @@ def sim_cases(thorough):
               ("0-2,4", 4, [0, 1, 2, 4]), ("0,2-3", 3, [0, 2, 3]),
               # range ends with different numbers of digits (10+ CPUs)
               ("0-3,8-11", 12, [0, 1, 2, 3, 8, 9, 10, 11]), ("8-11", 12, [8, 9, 10, 11]), ("2-15", 16, list(range(2, 16))),
-              ("9-10", 12, [9, 10])]
+              ("9-10", 12, [9, 10]),
+              # no Cpus_allowed_list line at all: every CPU the system-wide table lists is eligible
+              ("none", 4, [0, 1, 2, 3]), ("none", 12, list(range(12))), ("none", 16, list(range(16)))]
     for shape, ncpu, elig in shapes:
         reqs = [()] + [(c,) for c in range(ncpu)] + [tuple(elig), tuple(range(ncpu)), (ncpu,), (elig[0], elig[0])]
         if len(elig) > 1:
@@ -565,7 +600,7 @@ def run(ctx):
     for c, bad in zip(bk, bigkernel(bk)):
         for cause, msg in bad:
             viols.append({"cause": cause, "msg": msg, "case": {"bigkernel": c}})
-    oc = ["nice", "ionice", "affinity", "rlimit"]
+    oc = ["nice", "ionice", "affinity", "rlimit", "exc:KeyError", "exc:AccessDenied", "exc:KeyboardInterrupt"]
     for c, bad in zip(oc, ctx.pmap(sim_oneshot, oc)):
         for cause, msg in bad:
             viols.append({"cause": cause, "msg": msg, "case": {"oneshot": c}})
